@@ -166,7 +166,13 @@ class PrefetchFamily(common.Family):
           raw = client.next_batch_from_generator(cfg['bs']).result()
           batch = lazy_fns.maybe_make(raw)
         except Exception as e:  # pylint: disable=broad-exception-caught
-          stream.append(['CALL-EXC', type(e).__name__, str(e)[:120]])
+          name = type(e).__name__
+          text = str(e)
+          if name == 'StatusError' and 'raised on the server:' in text:
+            # the transport wraps what the handler raised: keep its class
+            inner = text.split('raised on the server:', 1)[1].strip()
+            name = 'StatusError(' + inner.split(':', 1)[0].strip() + ')'
+          stream.append(['CALL-EXC', name, text[:160]])
           return
         k += 1
         if not isinstance(batch, list):
@@ -377,7 +383,9 @@ class PrefetchFamily(common.Family):
       pass
     elif end[0] == 'CALL-EXC':
       if not (allow_stop and end[1] in ('TimeoutError', 'RuntimeError',
-                                        'StatusError')):
+                                        'StatusError',
+                                        'StatusError(TimeoutError)',
+                                        'StatusError(RuntimeError)')):
         res.append(v('protocol', f'call-failed:{end[1]}:{scen}',
                      f'{name}: {stream}'))
     else:
